@@ -74,7 +74,8 @@ def judge(cases, wd):
     view = []
     for c in cases:
         v = {k: c[k] for k in TLC_FIELDS}
-        v['rd'] = [{k: o[k] for k in ('id', 'vis', 'e02', 'e42', 'assist')} for o in c['rd']]
+        v['rd'] = [{k: o[k] for k in ('id', 'vis', 'e02', 'e42', 'assist', 'alts')} for o in c['rd']]
+        v['unused'] = c['unused']
         view.append(v)
 
     def one(ic):
@@ -101,7 +102,7 @@ def judge(cases, wd):
     return results, fails, seen
 
 
-def run_into(ck, tier, wd, replay_case=None):
+def run_into(ck, tier, wd, replay_case=None, prop='C01'):
     """adds the multi-scope evidence and violations to the Check `ck` (property C01)"""
     thorough = tier == 'thorough'
     if replay_case is not None:
@@ -122,20 +123,35 @@ def run_into(ck, tier, wd, replay_case=None):
     ck.extra['multiscope_scopes'] = sum(len(c['scopes']) for c in cases)
     byid = {c['id']: c for c in cases}
     reported = set()
-    for f in sorted(fails, key=lambda f: (len(byid[f[2]]['source']), f[2])):
+    mine = [f for f in fails if f[1] == prop]
+    others = {}
+    for f in fails:
+        if f[1] != prop:
+            others[f[1]] = others.get(f[1], 0) + 1
+    ck.extra['multiscope_clause_failures_of_other_properties'] = others
+    for f in sorted(mine, key=lambda f: (len(byid[f[2]]['source']), f[2])):
         c = byid[f[2]]
         rid = f[4][0]
-        pos = c['read_pos'].get(str(rid))
+        pos = c['read_pos'].get(str(rid)) if rid else None
         if f[2] in reported:
             continue
         reported.add(f[2])
         if len(reported) > 10:
             break
-        sig = {'clause': 'Visible/multiscope', 'source': c['source'], 'read': pos}
-        ck.violation(sig, 'C01 clause Visible: read %s at %s of a generated multi-scope program succeeds at run time but supp says '
-                          '[visible, E02, E42, offered] = %s; values seen: %s' % (rid, pos, json.dumps(f[4][1][:4]), json.dumps(f[4][1][4])),
-                     {'multiscope': True, 'gseed': c['gseed'], 'source': c['source'], 'read': pos})
-    ck.extra['multiscope_failing_programs'] = len({f[2] for f in fails})
+        sig = {'clause': '%s/multiscope' % f[3], 'source': c['source'], 'read': pos}
+        if f[3] == 'Visible':
+            what = ('C01 clause Visible: read %s at %s of a generated multi-scope program succeeds at run time but supp says '
+                    '[visible, E02, E42, offered] = %s; values seen: %s' % (rid, pos, json.dumps(f[4][1][:4]), json.dumps(f[4][1][4])))
+        elif f[3] == 'DefIncluded':
+            sp = c.get('site_pos', {})
+            what = ('C02 clause DefIncluded: read %s at %s of a generated multi-scope program obtains the binding(s) %s of its own body at run time; '
+                    'supp lists %s' % (rid, pos, json.dumps([[v, sp.get(str(v))] for v in f[4][1][0]]), json.dumps(f[4][1][1])))
+        else:
+            sp = c.get('site_pos', {})
+            what = 'C02 clause NoFalseUnused: binding(s) %s of a generated multi-scope program are read at run time (in their own body) but reported unused' % (
+                json.dumps([[v, sp.get(str(v))] for v in f[4][1]]),)
+        ck.violation(sig, what, {'multiscope': True, 'gseed': c['gseed'], 'source': c['source'], 'read': pos})
+    ck.extra['multiscope_failing_programs'] = len({f[2] for f in mine})
     for c in cases:
         s = seen.get(c['id'])
         if s and len(c['scopes']) >= 3 and len(c['cpython']) >= 2:
